@@ -436,3 +436,23 @@ Proof.
   pose proof (count_true_le (dens l)).
   destruct sk; cbn [negb]; [rewrite sum_counts_cons, IH|rewrite IH]; lia.
 Qed.
+
+Theorem den_split_off_parts s n :
+  den (fst (split_off s n)) ++ den (snd (split_off s n)) = den s
+  /\ length (den (fst (split_off s n))) = Nat.min n (length (den s)).
+Proof.
+  destruct (den_split_off s n) as [H1 H2]. rewrite H1, H2. split.
+  - apply firstn_skipn.
+  - apply firstn_length.
+Qed.
+
+Theorem counters_den s :
+  row_count s = count_true (den s) /\ total_row_count s = length (den s)
+  /\ skipped_row_count s = length (den s) - count_true (den s).
+Proof. split; [apply row_count_den|split; [apply total_row_count_den|apply skipped_row_count_den]]. Qed.
+
+(* non-vacuity of the side condition: a concrete selection satisfying it on which trim acts *)
+Example trim_example :
+  wf_rowsel (Sels [(false, 2); (true, 3); (false, 1); (true, 4)])
+  /\ den (trim (Sels [(false, 2); (true, 3); (false, 1); (true, 4)])) = [true; true; false; false; false; true].
+Proof. split; [repeat constructor; cbn; discriminate|reflexivity]. Qed.
